@@ -2,6 +2,9 @@
 # Unchanged-tree alarm sweep: every sessim check at many seeds; prints only alarms.
 # usage: ./sweep.sh <first-seed> <last-seed> [tier]
 a=${1:-1}; b=${2:-10}; tier=${3:-quick}
+# with `vp run --with-repo` the sweep checks a snapshot of /repo's HEAD, so that
+# seeded changes applied to /repo meanwhile do not disturb it
+[ -n "${VP_RUN_REPO:-}" ] && export VERIF_REPO="$VP_RUN_REPO"
 ./verif setup >/dev/null 2>&1 || { echo "setup failed"; exit 2; }
 for seed in $(seq $a $b); do
   for p in C16 C01 C06 C07 C12 C15; do
